@@ -663,7 +663,7 @@ func genProg(t *rapid.T) Prog {
 
 func TestFeeQuotePrograms(t *testing.T) {
 	pbt.Run(t, pbt.Sub[Prog]{
-		Name: "feequote-programs", Quick: 1200, Thorough: 40000,
+		Name: "feequote-programs", Quick: 2400, Thorough: 60000,
 		Gen: genProg, Check: checkProg, Precommit: true,
 	})
 }
